@@ -78,6 +78,7 @@ func genC17(g *prng.R) c17Case {
 	actID := fmt.Sprintf("%s/act/fw%d", R1, g.Intn(1000000))
 	typ := pick(g, "Create", "Announce", "Like", "Offer", "Listen")
 	act := M{"type": typ, "id": actID, "actor": carol()}
+	followCase := g.Chance(1, 12)
 	for _, k := range []string{"to", "cc", "audience"} {
 		n := g.Intn(3)
 		if n == 0 {
@@ -343,6 +344,32 @@ func genC17(g *prng.R) c17Case {
 			act["object"] = first
 		}
 	}
+	if followCase && !graphMode {
+		// a Follow of the inbox's actor, answered by the library itself
+		// (nothing / Accept / Reject): the answer embeds the Follow, and the
+		// Follow is still to be forwarded as it was received
+		typ = "Follow"
+		act["type"] = typ
+		delete(act, "target")
+		var ov interface{} = alice()
+		if g.Chance(1, 3) {
+			ov = M{"type": "Person", "id": alice()}
+		}
+		if g.Chance(1, 4) {
+			ov = A{ov, R2 + "/users/zed"}
+		}
+		act["object"] = ov
+		sc.Cfg.FedWrapped = true
+		sc.Cfg.OnFollow = g.Intn(3)
+		cs0["follow_answered"] = sc.Cfg.OnFollow
+		if g.Chance(2, 3) {
+			act["to"] = A{alice() + "/followers"}
+		}
+		if g.Chance(2, 3) {
+			act["bto"] = A{dave()}
+			act["bcc"] = erin()
+		}
+	}
 	if g.Chance(1, 5) {
 		act["tag"] = A{M{"type": "Mention", "href": pick(g, alice(), carol())}}
 	}
@@ -399,7 +426,7 @@ func genC17(g *prng.R) c17Case {
 	k := g.Range(1, 3)
 	for i := 0; i < k; i++ {
 		box := aliceIn()
-		if g.Chance(1, 3) {
+		if g.Chance(1, 3) && typ != "Follow" {
 			box = bob() + "/inbox"
 		}
 		sc.Requests = append(sc.Requests, sim.PostInboxReq(box, withCtx(act)))
@@ -497,6 +524,12 @@ func init() {
 			creates := 0
 			for _, e := range res.Log {
 				if e.Kind == "tp.BatchDeliver" {
+					if pm, _ := parseJSON(e.Payload); act["type"] == "Follow" {
+						if m, _ := pm.(map[string]interface{}); m != nil && (m["type"] == "Accept" || m["type"] == "Reject") {
+							// the library's own answer to the Follow
+							continue
+						}
+					}
 					forwards = append(forwards, e)
 				}
 				if e.Kind == "db.Create" && len(e.Args) > 0 && e.Args[0] == actID && !e.Injected {
@@ -554,7 +587,21 @@ func init() {
 					return
 				}
 				f := forwards[0]
-				if !sameSet(f.Args[1:], wantRecips) {
+				gotRecips := f.Args[1:]
+				if act["type"] == "Follow" {
+					// whether the follower just accepted is already a member
+					// when the Follow is forwarded is not this property's
+					drop := func(l []string) (out []string) {
+						for _, x := range l {
+							if x != carol() {
+								out = append(out, x)
+							}
+						}
+						return
+					}
+					gotRecips, wantRecips = drop(gotRecips), drop(wantRecips)
+				}
+				if !sameSet(gotRecips, wantRecips) {
 					viol("forward-recipients", f.Site, "filter "+sc.Cfg.Filter, fmt.Sprintf("recipients %v want the members of %v = %v", f.Args[1:], filtered, wantRecips))
 				}
 				pv, _ := parseJSON(f.Payload)
